@@ -98,8 +98,13 @@ func c07Races(r *ev.Rec) {
 	}
 	enum.Run(r, int64(len(cases)), func(idx int64, l *ev.Local) {
 		c := cases[idx]
+		// The phases are recognised by function names on the call stack. The event-free execution (the first one) checks
+		// that the names the oracle relies on were actually seen whenever a command came out; if not (the code was
+		// refactored) nothing is flagged for this case and the evidence says so — a renamed function must not raise an alarm.
+		phasesKnown, first := false, true
 		ex := &explore.Explorer{Bound: 1, MaxExecs: 50000, Stop: r.Expired}
 		ex.Exec = func(run *explore.Run) {
+			seenPhase := map[string]bool{}
 			cc := c07Case{v: make([]int, len(c07Factors)), contents: c.contents, drifted: c.drifted}
 			env := buildDisrupt(cc.world())
 			w := env.W
@@ -153,6 +158,7 @@ func c07Races(r *ev.Rec) {
 				switch ph := c07Phase(); {
 				case ph != "":
 					cur = ph
+					seenPhase[ph] = true
 					if ph != "candidates-and-budgets" {
 						classified = true // every method simulates or validates (with API calls) before it starts a command
 					}
@@ -178,13 +184,30 @@ func c07Races(r *ev.Rec) {
 					}
 				}
 			}
+			if first {
+				first = false
+				switch c.method {
+				case "Drift":
+					phasesKnown = seenPhase["candidates-and-budgets"] && seenPhase["first-simulation"]
+				case "Emptiness":
+					phasesKnown = seenPhase["candidates-and-budgets"] && seenPhase["validation"]
+				default:
+					phasesKnown = seenPhase["candidates-and-budgets"] && seenPhase["first-simulation"] && seenPhase["validation"]
+				}
+				if !selected {
+					phasesKnown = true // nothing is selected in this world anyway: nothing can be flagged
+				}
+				if !phasesKnown {
+					l.Outcome("race: phases not recognisable from the call stack (renamed functions?) - part not judged for " + c.method)
+				}
+			}
 			if fired == "" {
 				l.Outcome(fmt.Sprintf("race: no event, selected=%v", selected))
 				return
 			}
 			// the daemon pod of an otherwise empty node does not protect it
 			protects := !(fired == "pod-gets-do-not-disrupt" && c.contents == "empty")
-			must := protects && c07MustCatch(c.method, fired, phase)
+			must := phasesKnown && protects && c07MustCatch(c.method, fired, phase)
 			l.NontrivialH(ev.H(fmt.Sprintf("race/%d/%s/%s/%v", idx, fired, before, selected)))
 			switch {
 			case selected && must:
